@@ -1862,6 +1862,13 @@ UNION_CMP_STREAM = dict(stream='cmp', label='cmp-union', gen=gen_union_cmp, orac
                         cfgs=dict(quick=[('cfg_default', 'debug')], thorough=[('cfg_default', 'debug'), ('cfg_default', 'release')]))
 PROPS['C12']['streams'] = PROPS['C12']['streams'] + [UNION_CMP_STREAM]
 PROPS['C04']['streams'] = PROPS['C04']['streams'] + [EFFECTS_STREAM]
+# the count accessors that go through a borrow (ArcBorrow / ArcUnion / ArcUnionBorrow ::strong_count) on every payload
+# shape, over-aligned ones included: the union cases of the pointer stream; and their bodies are the transcribed ones
+PROPS['C04']['streams'] = PROPS['C04']['streams'] + [PTR_STREAM_C12]
+_c04_old_side = PROPS['C04']['side_obligations']
+PROPS['C04']['side_obligations'] = lambda facts: _c04_old_side(facts) + [
+    ('count_accessors_through_borrows_are_the_modelled_ones', bool(((facts.get('pointers') or {}).get('forms') or {}).get('borrow')) and bool(((facts.get('pointers') or {}).get('forms') or {}).get('union')),
+     'differing: %s' % (facts.get('pointers') or {}).get('diffs'))]
 PROPS['C07']['streams'] = PROPS['C07']['streams'] + [EFFECTS_STREAM]
 def c15_side(facts):
     PT = facts.get('pointers') or {}
